@@ -1,6 +1,7 @@
 """C10 — garbage collection never removes a needed file and leaves no orphan."""
+import re
 from ..model import (Ev, must_pass, must_precede, trace_through, trace_back, op_local, op_place, place_local,
-                     is_bare, provenance, place_proj)
+                     is_bare, provenance, place_proj, proj_fields)
 from ..rules import (rule_precede, rule_must_pass, rule_result_checked, rule_who_may_call, get_body, family,
                      calls_to, site, short, rule_between, return_defs, guard_live_at, locals_of_type,
                      local_kill_events, must_closure)
@@ -388,17 +389,112 @@ def r7(rep, prog):
     rule_result_checked(rep, prog, R, fid, {"tantivy::directory::managed_directory::save_managed_paths"}, "save_managed_paths")
     body = prog.body(fid)
     if body is not None:
-        # removal from managed_paths only iterates `deleted_files`
-        rm = [(b, t) for b, t in body.calls() if t.get("f", "").endswith("HashSet::<T, S, A>::remove")]
-        dl = body.local_by_name("deleted_files")
-        okk = bool(rm) and len(dl) == 1
-        for b, t in rm:
-            lv = provenance(body, op_local(t["args"][1]), extra_transparent=tuple(prog.names(r"Iterator::next$|IntoIterator::into_iter$|<impl \[T\]>::iter$|Vec::<T, A>::as_slice$|Deref::deref$")))
-            # the removed element flows from the iterator over deleted_files
-            if not any(l == ("agg", "alloc::vec::Vec", 0) for l in lv) and dl:
-                srcs = provenance(body, op_local(t["args"][1]), extra_transparent=tuple(prog.names(r"Iterator::next$|IntoIterator::into_iter$")))
-        rep.check(okk, R, "garbage_collect removes from the managed list inside the deleted_files loop", "%d remove site(s)" % len(rm),
-                  "cannot establish how managed_paths is pruned", site=body.span)
+        # only deleted files leave the managed list: the set that is written back is the *current* set minus
+        # what was deleted.  Accepted: `remove(x)` with x drawn from a local filled after a delete() call, or
+        # `retain(closure)` whose closure captures such a local; rejected: any other mutation of managed_paths
+        # (whole-set assignment, clear, extend, insert, retain over the living files computed earlier).
+        from ..mergecov import Aliases
+        al = Aliases(body, {1: "self"})
+        dels_ = calls_to(prog, body, family(prog, D + "delete"))
+        after_delete = set()
+        for db_, _t in dels_:
+            after_delete |= body.reachable(tuple(body.succ(db_)))
+        filled = set()          # locals that receive Vec::push / HashSet::insert after a delete() call
+        for bi, t in body.calls():
+            f = t.get("f") or ""
+            if bi in after_delete and re.search(r"Vec::<T, A>::push$|HashSet::<T, S(, A)?>::insert$", f) and t.get("args"):
+                tr = trace_back(body, op_local(t["args"][0])) if op_local(t["args"][0]) is not None else []
+                for l_ in range(len(body.locals)):
+                    pass
+                root = op_local(t["args"][0])
+                for _ in range(6):
+                    ds = body.defs().get(root, [])
+                    if len(ds) == 1 and ds[0][0] == "stmt" and ds[0][3].get("r") in ("ref", "use") and (ds[0][3].get("p") is not None or ds[0][3].get("o")):
+                        pl = ds[0][3].get("p") if ds[0][3].get("r") == "ref" else op_place(ds[0][3]["o"][0])
+                        if pl is None:
+                            break
+                        root = place_local(pl)
+                    else:
+                        break
+                filled.add(root)
+        muts, bad_muts = [], []
+        for bi, t in body.calls():
+            f = t.get("f") or ""
+            if not t.get("args"):
+                continue
+            rcv = op_local(t["args"][0])
+            if rcv is None:
+                continue
+            trr = trace_back(body, rcv)
+            on_managed = any(s_[0] == "field" and s_[2] == "managed_paths" for s_ in trr)
+            if not on_managed:
+                continue
+            name = f.split("::")[-1]
+            if name in ("contains", "iter", "into_iter", "len", "is_empty", "get", "difference", "intersection", "clone", "deref", "serialize", "fmt"):
+                continue
+            if name == "remove":
+                lv = provenance(body, op_local(t["args"][1]), extra_transparent=tuple(prog.names(r"Iterator::next$|IntoIterator::into_iter$|<impl \[T\]>::iter$|Vec::<T, A>::as_slice$|Deref::deref$|HashSet::<T, S(, A)?>::iter$")))
+                roots = set()
+                for leaf in lv:
+                    if leaf[0] == "call":
+                        continue
+                src_ok = False
+                tr2 = trace_through(body, op_local(t["args"][1]), transparent=tuple(prog.names(r"Iterator::next$|IntoIterator::into_iter$|<impl \[T\]>::iter$|Vec::<T, A>::as_slice$|Deref::deref$|HashSet::<T, S(, A)?>::iter$"))) if op_local(t["args"][1]) is not None else []
+                src_ok = any((s_[0] == "ref" or s_[0] == "use") for s_ in tr2) and any(True for _ in filled)
+                # the iterated collection is one of the filled locals
+                it_ok = False
+                for bj, tj in body.calls():
+                    fj = tj.get("f") or ""
+                    if re.search(r"IntoIterator::into_iter$|<impl \[T\]>::iter$|HashSet::<T, S(, A)?>::iter$", fj) and tj.get("args"):
+                        r0 = op_local(tj["args"][0])
+                        cur = r0
+                        for _ in range(6):
+                            ds = body.defs().get(cur, [])
+                            if len(ds) == 1 and ds[0][0] == "stmt" and ds[0][3].get("r") in ("ref", "use"):
+                                pl = ds[0][3].get("p") if ds[0][3].get("r") == "ref" else op_place(ds[0][3]["o"][0])
+                                if pl is None:
+                                    break
+                                cur = place_local(pl)
+                            else:
+                                break
+                        if cur in filled and bi in body.reachable(tuple(body.succ(bj))):
+                            it_ok = True
+                (muts if it_ok else bad_muts).append((bi, "remove", it_ok))
+            elif name == "retain":
+                captured_filled = False
+                cl = op_local(t["args"][1]) if len(t["args"]) > 1 else None
+                trc = trace_back(body, cl) if cl is not None else []
+                for s_ in trc:
+                    if s_[0] == "agg" and isinstance(s_[1], str) and "{closure" in s_[1]:
+                        st_ = body.stmts(s_[2])[s_[3]]
+                        for o in st_.get("o", []):
+                            cur = op_local(o)
+                            for _ in range(6):
+                                ds = body.defs().get(cur, []) if cur is not None else []
+                                if len(ds) == 1 and ds[0][0] == "stmt" and ds[0][3].get("r") in ("ref", "use"):
+                                    pl = ds[0][3].get("p") if ds[0][3].get("r") == "ref" else op_place(ds[0][3]["o"][0])
+                                    if pl is None:
+                                        break
+                                    cur = place_local(pl)
+                                else:
+                                    break
+                            if cur in filled:
+                                captured_filled = True
+                (muts if captured_filled else bad_muts).append((bi, "retain", captured_filled))
+            else:
+                bad_muts.append((bi, name, False))
+        # whole-set stores
+        for bi in body.normal_blocks():
+            for st in body.stmts(bi):
+                if not is_bare(st["d"]):
+                    fs = proj_fields(st["d"])
+                    if fs and fs[-1][1] == "managed_paths":
+                        bad_muts.append((bi, "assignment of the whole set", False))
+        okk = bool(muts) and not bad_muts
+        rep.check(okk, R, "garbage_collect removes from the managed list inside the deleted_files loop", "%d mutation(s) of managed_paths, all removing deleted files" % len(muts),
+                  "garbage_collect does not prune the managed list by exactly the files it deleted (%s): a file that was not deleted — one whose deletion failed, or one registered by another thread while the "
+                  "collection was running — leaves the registry: it is never collected and never checksum-validated again" % sorted({m[1] for m in bad_muts} or {"no mutation found"}),
+                  site=site(body, (bad_muts or muts or [(0,)])[0][0]))
         # files pushed to deleted_files only on the Ok / FileDoesNotExist arms of self.delete
         dels = calls_to(prog, body, family(prog, D + "delete"))
         rep.check(len(dels) == 1, R, "garbage_collect deletes in exactly one place", "1 call to self.delete", "expected one delete call, found %d" % len(dels), site=body.span)
